@@ -9,6 +9,8 @@ history (no handles, no parked buffers, no deferred flush, no sorted maps):
                        alive one
 * `announced`, `resolveDecl` – mappings announced at or before a sample in that process (inherited across
                        fork, dropped by exec) and the newest-live-covering rule (C02)
+* `pmDecl`, `resolveH`, `expandJs` – the functions a perf map file declares, regular mappings before perf-map
+                       functions, and the JS label frame in front of every frame of a JS function (C02, C14)
 * `elisionOk`        – the statement of C14 about one output stack
 
 Everything here is used by the judges (`Iface/ConvJudge.lean`) and is what the theorems in `Props/C01.lean`,
@@ -280,7 +282,10 @@ end Life
 /-- what a process has been told about its address space, oldest first: (timestamp, mapping) -/
 abbrev Announced := List (Nat × MapAdd)
 
-def overlaps (a b : MapAdd) : Bool := decide (a.start < b.end_) && decide (b.start < a.end_)
+/-- `b` displaces `a` (and vice versa): the ranges intersect, or they start at the same address (an empty
+range intersects nothing, but a mapping table holds one mapping per start address) -/
+def overlaps (a b : MapAdd) : Bool :=
+  (decide (a.start < b.end_) && decide (b.start < a.end_)) || a.start == b.start
 def covers (m : MapAdd) (a : Nat) : Bool := decide (m.start ≤ a) && decide (a < m.end_)
 
 /-- the most recently announced mapping (among those announced at or before `t`) that covers `a` and has not
@@ -295,12 +300,72 @@ def resolveDecl (ann : Announced) (t a : Nat) : Option MapAdd :=
       | none => if covers m a && !(later.any (overlaps m)) then some m else none
   go cands
 
-def expectFrame (ann : Announced) (t : Nat) (f : SFrame) : Frame :=
+/-! ### Perf map: what the file declares -/
+
+/-- The functions declared by the well-formed lines of a perf map file, in file order. The relative address
+of a function inside the fake library `/tmp/perf-<pid>.map` is the sum of the sizes (as `u32`) of all
+functions declared before it. -/
+def pmDecl (path : String) : Nat → List PmLine → List MapAdd
+  | _, [] => []
+  | before, l :: rest =>
+    { start := l.addr, end_ := l.addr + l.len, rel := before, lib := path, js := classify l.name }
+      :: pmDecl path (before + l.len % 2 ^ 32) rest
+
+def pmCands (cfg : Config) (pid : Nat) : List MapAdd :=
+  match alGet cfg.perfMaps pid with
+  | none => []
+  | some lines => pmDecl (perfMapPath pid) 0 (lines.filterMap parsePmLine)
+
+/-- regular mappings (announced at or before `t`) win over perf-map functions; among the perf-map functions
+the last declared one covering the address that no later line displaced -/
+def resolveH (ann : Announced) (t : Nat) (pm : List MapAdd) (a : Nat) : Option MapAdd :=
+  match resolveDecl ann t a with
+  | some m => some m
+  | none => resolveDecl.go a pm
+
+def expectInfo (ann : Announced) (t : Nat) (pm : List MapAdd) (f : SFrame) : Info :=
   let la := f.lookupAddr
-  if f.kernel then .raw la else
-  match resolveDecl ann t la with
-  | some m => .lib m.lib (m.rel + (la - m.start))
-  | none => .raw la
+  if f.kernel then { frame := .raw la } else
+  match resolveH ann t pm la with
+  | some m => { frame := .lib m.lib (m.rel + (la - m.start)), js := m.js }
+  | none => { frame := .raw la }
+
+def expectFrame (ann : Announced) (t : Nat) (f : SFrame) : Frame := (expectInfo ann t [] f).frame
+
+/-! ### JS label frames, declaratively
+
+`before` = the frames root-ward of the current one, nearest first. A frame of a JS function (regular or
+baseline-interpreter stub) is preceded by a label frame carrying the function's name; a bare
+`BaselineInterpreter` frame takes the name of the nearest root-ward frame that carries any JS information,
+provided that one is a regular JS function; self-hosted names get no label. -/
+
+def jsNameBefore : List Info → Option JsName
+  | [] => none
+  | i :: more =>
+    match i.js with
+    | none => jsNameBefore more
+    | some (.regular n) => some n
+    | some _ => none
+
+def labelOf (before : List Info) (i : Info) : Option String :=
+  let nm : Option JsName := match i.js with
+    | some (.regular n) => some n
+    | some (.stub n) => some n
+    | some .baselineInterp => jsNameBefore before
+    | none => none
+  match nm with
+  | some (.nonSelfHosted s) => some s
+  | _ => none
+
+def expandJsFrom (before : List Info) : List Info → List Frame
+  | [] => []
+  | i :: rest =>
+    (match labelOf before i with
+      | some s => [Frame.label s, i.frame]
+      | none => [i.frame]) ++ expandJsFrom (i :: before) rest
+
+/-- the root-first frame list of recorded frames with every JS-classified frame expanded to label + native -/
+def expandJs (infos : List Info) : List Frame := expandJsFrom [] infos
 
 /-- per-pid announced mappings along the history (inherited at fork, emptied by exit / exec of the main thread) -/
 def annStep (st : List (Nat × Announced)) : Rec → List (Nat × Announced)
@@ -330,7 +395,7 @@ def expectedStacks (cfg : Config) (rs : List Rec) : List (Nat × Nat × Nat × L
         let ann := (alGet st pid).getD []
         let later := laterSameTs pid t rest
         let stack := sampleStack cfg km ip chain
-        (pid, tid, t, stack.reverse.map (expectFrame (ann ++ later) t)) :: go st' a.1 rest
+        (pid, tid, t, expandJs (stack.reverse.map (expectInfo (ann ++ later) t (pmCands cfg pid)))) :: go st' a.1 rest
       | _, _ => go st' a.1 rest
   go [] [] rs
 where
@@ -344,6 +409,28 @@ where
     | .exit p td _ :: rest => if p = pid ∧ td = pid then [] else laterSameTs pid t rest
     | .comm p td _ true _ :: rest => if p = pid ∧ td = pid then [] else laterSameTs pid t rest
     | _ :: rest => laterSameTs pid t rest
+
+/-- the per-CPU copies expected for every accepted sample (`--per-cpu-threads`): (CPU index, raw time, thread
+label if the history respects the record grammar — the eager lifecycle gives the thread's name at that
+moment —, frames without the label) -/
+def expectedCpuStacks (cfg : Config) (rs : List Rec) : List (Nat × Nat × Option String × List Frame) :=
+  if cfg.ncpu = 0 then [] else
+  let stacks := expectedStacks cfg rs
+  let gok := Life.grammarOk cfg.ref rs
+  -- thread names at the time of each accepted sample, in record order
+  let rec names (ls : Life.S) (last : ConvSpec.Last) : List Rec → List (Option String)
+    | [] => []
+    | r :: rest =>
+      let ls' := Life.step ls r
+      let a := accStep (last, []) r
+      match r, a.2 with
+      | .sample pid tid _ _ _ _ _, [_] =>
+        let nm := ((Life.curProc ls' pid).bind (fun pi => Life.curThread ls' pi tid)).bind (Life.threadName ls')
+        (some (threadLabel nm pid tid)) :: names ls' a.1 rest
+      | _, _ => names ls' a.1 rest
+  let labels := names { ref := cfg.ref, cur := cfg.ref } [] rs
+  (stacks.zip labels).map (fun (st, lb) =>
+    (st.2.2.1 % cfg.ncpu, st.2.2.1, (if gok then lb else none), st.2.2.2))
 
 /-! ## C14: the statement about one output stack -/
 
@@ -366,5 +453,28 @@ def elisionOk (orig out : List Frame) : Bool :=
         decide (100 ≤ tail.length) && decide (tail.length ≤ 300) && tail == orig.drop (n - tail.length) &&
         decide (200 + c + tail.length = n) && decide (out.length ≤ 501) && decide (0 < c)
       | _ => false
+
+/-- `elisionOk` without its two upper bounds on the depth (output ≤ 501 frames, leaf part ≤ 300): the
+placeholder sits at position 200, the root part and the leaf part are verbatim, at least 100 leaf frames are
+kept, and kept + stated = original depth. Only used to *label* a failure of `elisionOk` (reason tag
+`[js-label-depth]`), never to accept an output. -/
+def elisionOkButDepth (orig out : List Frame) : Bool :=
+  let n := orig.length
+  if n < 500 then out == orig
+  else
+    match out.findIdx? isElided with
+    | none => false
+    | some i =>
+      match out[i]? with
+      | some (.elided c) =>
+        let tail := out.drop (i + 1)
+        i == 200 && out.take 200 == orig.take 200 &&
+        decide (100 ≤ tail.length) && tail == orig.drop (n - tail.length) &&
+        decide (200 + c + tail.length = n) && decide (0 < c)
+      | _ => false
+
+def isLabel : Frame → Bool
+  | .label _ => true
+  | _ => false
 
 end ConvSpec
